@@ -455,9 +455,13 @@ def gen_dataset(rng, present=None, size=None, nested_rigs=False, rig_order=None,
         rows, seen = [], set()
         kps = [r for r in (d['keypoints'] or []) if r[-1]]
         if kps:
+            # observations.txt has one line per (point3d_id, keypoints_type): a 3-D point is usually seen through
+            # several kinds of keypoints (and several points through one kind), so ids come from a small pool
+            pid_pool = [rng.choice([rng.randint(0, 50), gen_timestamp(rng)]) for _ in range(rng.randint(1, 3))]
             for _ in range(n_rows()):
                 kp = rng.choice(kps)
-                k = (rng.choice([rng.randint(0, 50), gen_timestamp(rng)]), kp[0])
+                k = (rng.choice(pid_pool) if rng.random() < 0.6 else rng.choice([rng.randint(0, 50), gen_timestamp(rng)]),
+                     kp[0])
                 if k in seen:
                     continue
                 seen.add(k)
